@@ -87,10 +87,11 @@ def _preprocess_data(X, y, fit_intercept, epsilon=1.0, bounds_X=None, bounds_y=N
     y = clip_to_bounds(y, bounds_y)
 
     if fit_intercept:
-        X_offset = mean(X, axis=0, bounds=bounds_X, epsilon=epsilon, random_state=random_state,
+        # The intercept's share of epsilon is split evenly between the means of X and y
+        X_offset = mean(X, axis=0, bounds=bounds_X, epsilon=epsilon / 2, random_state=random_state,
                         accountant=BudgetAccountant())
         X -= X_offset
-        y_offset = mean(y, axis=0, bounds=bounds_y, epsilon=epsilon, random_state=random_state,
+        y_offset = mean(y, axis=0, bounds=bounds_y, epsilon=epsilon / 2, random_state=random_state,
                         accountant=BudgetAccountant())
         y = y - y_offset
     else:
